@@ -98,6 +98,9 @@ fn shadow_programs(name: &str, call: &str) -> Vec<String> {
         format!("local function f() local {n} = EI return function() {u} end end\nf()()\nreturn 1", n = name, u = use_stat),
         format!("if x then local {n} = EI {u} else {u} end\nreturn 1", n = name, u = use_stat),
         format!("repeat local {n} = EI until (function() {u} return true end)()\nreturn 1", n = name, u = use_stat),
+        format!("local zz, {n} = (function() return 1, EI end)()\n{u}\nreturn zz", n = name, u = use_stat),
+        format!("local zz, yy, {n} = (function() return 1, 2, EI end)()\n{u}\nreturn zz, yy", n = name, u = use_stat),
+        format!("local {n}, zz = EI\n{u}\nreturn zz", n = name, u = use_stat),
         format!("local o = {{{n} = EI}}\nE1(o.{n}(1))\nreturn 1", n = name),
         format!("local o = {{{n} = function(self, v) return v end}}\nE1(o:{n}(1))\nreturn 1", n = name),
     ];
@@ -325,6 +328,12 @@ pub fn run(tier: Tier) -> Report {
             bodies.push(b.into());
         }
         let mut seeds = mk(bodies.iter().map(|b| prog(b)).collect(), "global reads");
+        if matches!(jv, serde_json::Value::Object(_)) {
+            for use_ in ["G.a", "_G.G.a", "_G[\"G\"].a", "_G[\"G\"][\"a\"]", "(_G[\"G\"]).a"] {
+                seeds.extend(mk(shadow_programs("G", use_), "G shadowing (prefix uses)"));
+                seeds.extend(mk(shadow_programs("_G", use_), "_G shadowing (prefix uses)"));
+            }
+        }
         for use_ in ["G", "_G.G", "_G[\"G\"]"] {
             seeds.extend(mk(shadow_programs("G", use_), "G shadowing"));
             seeds.extend(mk(shadow_programs("_G", use_), "_G shadowing"));
